@@ -15,6 +15,17 @@ TRUSTED = [
 def gen(rng, tier):
     cs = []
     L = 96 if tier == "quick" else 600
+    # the pre-hashed mode finalised straight after init (NO update call: the empty message), and with empty chunks between real ones
+    for i in range(4 if tier == "quick" else 30):
+        seed, pk, sk = keypair(rng)
+        sig0 = refs.ed_sign(seed, b"", ph=True)
+        cs.append(Case("sign_ph %s" % hx(sk), cls="sign/ph-no-update", expect="ok " + hx(sig0)))
+        cs.append(Case("verify_ph %s %s" % (hx(pk), hx(sig0)), cls="verify_ph/no-update", expect="ok"))
+        cs.append(Case("verify_ph %s %s" % (hx(pk), hx(refs.ed_sign(seed, bytes(64), ph=False))), cls="verify_ph/no-update-other", expect="err"))
+        m1, m2 = rbytes(rng, 1 + i), rbytes(rng, 70)
+        sg = refs.ed_sign(seed, m1 + m2, ph=True)
+        cs.append(Case("sign_ph %s - %s - - %s -" % (hx(sk), hx(m1), hx(m2)), cls="sign/ph-empty-chunks", expect="ok " + hx(sg)))
+        cs.append(Case("verify_ph %s %s - %s - %s" % (hx(pk), hx(sg), hx(m1), hx(m2)), cls="verify_ph/empty-chunks", expect="ok"))
     for n in list(range(0, L + 1)) + ([1023, 1024, 4096] if tier == "thorough" else [1024]):
         seed, pk, sk = keypair(rng)
         msg = rbytes(rng, n)
